@@ -4,7 +4,7 @@
 # the given checks against the patched copy. Stores everything under /verif/seeded/<seed-id>/.
 set -u
 ID=$1; SD=$2; DEMODIR=$3; shift 3
-export GOFLAGS=-mod=mod GOPROXY=off GOSUMDB=off GOTOOLCHAIN=local
+export GOFLAGS=${SEED_GOFLAGS:--mod=mod} GOPROXY=off GOSUMDB=off GOTOOLCHAIN=local
 W=/root/scratch/seed_$ID
 rm -rf $W; mkdir -p $W
 rsync -a --exclude .git /repo/ $W/repo/
